@@ -144,12 +144,12 @@ def run(ctx):
                 "iff some record spans ≥ 2 input packets or TLS and QUIC are both present.")
     ctx.assumptions = ["microsecond timestamps: input timestamps are integer µs; the output is read back as integer µs"]
     import session_corr
-    import export_props_thms, file_corr     # whole-program form (Props/ExportProps) about TLX.Export.framesFrom, tied file to file
+    import export_props_quic_thms, export_props_thms, file_corr     # whole-program form (Props/ExportProps) about TLX.Export.framesFrom, tied file to file
     import translate                 # decision-logic functions re-translated from the source and proved equal to the model
     _tm, _tt = translate.wire(ctx, "C07")
-    ctx.prove(["TLX.Props.C07", "TLX.Props.C05", "TLX.Props.C07Session", "TLX.Props.C02Out"] + export_props_thms.MODULES + _tm)
+    ctx.prove(["TLX.Props.C07", "TLX.Props.C05", "TLX.Props.C07Session", "TLX.Props.C02Out"] + export_props_thms.MODULES + export_props_quic_thms.MODULES + _tm)
     ctx.require_theorems(_tt)
-    ctx.require_theorems(THEOREMS + session_corr.THEOREMS_C07 + export_props_thms.THEOREMS_C07 + ["TLX.Props.C02Out." + t for t in ("out_key_from_frames", "out_key_occurs", "build_groups")])
+    ctx.require_theorems(THEOREMS + session_corr.THEOREMS_C07 + export_props_thms.THEOREMS_C07 + export_props_quic_thms.THEOREMS_C07 + ["TLX.Props.C02Out." + t for t in ("out_key_from_frames", "out_key_occurs", "build_groups")])
     import c06_model
     c06_model.run_model(ctx)          # ties TLX.TcpOut (the model the theorems are about) to the real OutputBuilder
     import q1_udpout
